@@ -416,6 +416,12 @@ def r9(ctx):
     ctx.floor("C12.R9", 2)
 
 
+def r10(ctx):
+    """a subscriber handed over with the open request is registered whatever the order of the option builders (= C14.R11)"""
+    from . import C14
+    C14.open_opts_builders(ctx, "C12.R10")
+    ctx.floor("C12.R10", 2)
+
 def run(ctx):
     ctx.run_rule("C12.R1", r1)
     ctx.run_rule("C12.R2", r2)
@@ -426,3 +432,4 @@ def run(ctx):
     ctx.run_rule("C12.R7", r7)
     ctx.run_rule("C12.R8", r8)
     ctx.run_rule("C12.R9", r9)
+    ctx.run_rule("C12.R10", r10)
